@@ -41,6 +41,7 @@ class Sections:
         self.em = em
         self.secs = OrderedDict()
         self.field_impls = []
+        self.display_impls = []
 
     def section(self, name, struct, kind):
         if name not in self.secs:
@@ -70,6 +71,9 @@ class Sections:
                     continue
                 if trait in FIELD_TRAITS:
                     self.field_impls.append(it)
+                    continue
+                if trait == 'Display' and sname in DUAL_STRUCTS:
+                    self.display_impls.append((sname, it))
                     continue
                 if sname in ALL_STRUCTS:
                     sec = self.section(sname, sname, 'derivative' if sname == 'Derivative' else 'dual')
@@ -420,6 +424,72 @@ class Sections:
         sec.missing_dn = missing
         return '\n'.join(out) + '\n'
 
+    # -------------------------------------------------- Display
+    def fmt_pieces(self, mac, ctx):
+        """format_args!("..{0}..", a, b) -> list of Coq token-list terms"""
+        em = self.em
+        args = mac['args']
+        if not args or args[0]['k'] != 'lit' or args[0]['lit']['k'] != 'str':
+            raise Untranslatable('format_args without a literal format string')
+        fmt = args[0]['lit']['value']
+        out = []
+        pos = 0
+        for m in re.finditer(r'\{(\d*)\}|\{(\w+)\}', fmt):
+            lit = fmt[pos:m.start()]
+            if lit:
+                out.append('[TLit %s]' % em.coq_string(lit))
+            if m.group(1) is not None and m.group(1) != '':
+                out.append('(tokens %s)' % em.expr(args[1 + int(m.group(1))], ctx))
+            else:
+                raise Untranslatable('named / implicit format argument')
+            pos = m.end()
+        if fmt[pos:]:
+            out.append('[TLit %s]' % em.coq_string(fmt[pos:]))
+        return out
+
+    def fmt_body(self, stmts, ctx):
+        em = self.em
+        out = []
+        for st in stmts:
+            if st['k'] != 'expr':
+                raise Untranslatable('statement in fmt')
+            e = st['expr']
+            if e['k'] == 'try':
+                e = e['e']
+            if e['k'] == 'method' and e['method'] == 'write_fmt' and e['args'] and e['args'][0]['k'] == 'macro':
+                out += self.fmt_pieces(e['args'][0], ctx)
+            elif e['k'] == 'method' and e['method'] == 'fmt' and len(e['args']) == 2 and e['args'][1]['k'] == 'lit':
+                out.append('(der_fmt %s %s)' % (em.expr(e['recv'], ctx), em.coq_string(e['args'][1]['lit']['value'])))
+            else:
+                raise Untranslatable('fmt statement %s' % e['k'])
+        return out
+
+    def emit_display(self):
+        em = self.em
+        out = ['(* GENERATED by tools/emit.py: the Display impls as token lists -- do not edit *)',
+               'From ND Require Import Overload Float Mat Opt Wire Show DerFmt.',
+               'From NDgen Require Import Classes Gen_Derivative ' + ' '.join('Gen_' + s for s in DUAL_STRUCTS) + '.', '']
+        cov = []
+        for sname, it in self.display_impls:
+            fn = [f for f in it['items'] if f['k'] == 'fn' and f['sig']['name'] == 'fmt'][0]
+            ctx = Ctx(em, Section(sname, sname, 'dual'), '(%s T)' % sname, 'fmt')
+            src = fn.get('hash') or json.dumps(fn, sort_keys=True)
+            h = hashlib.sha256(src.encode()).hexdigest()[:16]
+            try:
+                pieces = self.fmt_body(fn['body']['stmts'], ctx)
+                body = ' ++ '.join(pieces) if pieces else '[]'
+                out.append('Section Display_%s.\nContext {F T : Type} {showT : Show F T}.' % sname)
+                out.append('(* %s Display :: fmt  [%s] *)' % (sname, h))
+                out.append('Definition %s_Display_fmt (self_ : %s T) : list (token F) :=\n  %s.' % (sname, sname, body))
+                out.append('#[global] Instance Show_%s : Show F (%s T) := %s_Display_fmt.' % (sname, sname, sname))
+                out.append('End Display_%s.\n' % sname)
+                cov.append({'section': 'Display', 'module': sname, 'trait': 'Display', 'fn': 'fmt', 'def': '%s_Display_fmt' % sname, 'translated': True, 'why': None, 'hash': h})
+            except Untranslatable as u:
+                cov.append({'section': 'Display', 'module': sname, 'trait': 'Display', 'fn': 'fmt', 'def': None, 'translated': False, 'why': str(u), 'hash': h})
+        cov.append({'section': 'Display', 'module': 'derivative', 'trait': None, 'fn': 'Derivative::fmt', 'def': 'der_fmt', 'translated': False,
+                    'why': 'hand-modelled (coq/ND/Hand/DerFmt.v), tied by correspondence', 'hash': ''})
+        return '\n'.join(out) + '\n', cov
+
     def emit_classes(self):
         em = self.em
         out = ['(* GENERATED by tools/emit.py: method / field classes and the DualNum interface record *)',
@@ -507,6 +577,8 @@ def main():
                         'translated': fi.ok, 'why': fi.why, 'hash': fi.hash})
         print('%-16s translated %3d / %3d   missing DN fields: %s' % (name, sum(f.ok for f in sec.fns), len(sec.fns), ','.join(sec.missing_dn) or '-'))
     texts['Classes.v'] = ss.emit_classes()
+    texts['Gen_Display.v'], dcov = ss.emit_display()
+    cov += dcov
     os.makedirs(outdir, exist_ok=True)
     for fn, t in texts.items():
         ch = write_if_changed(os.path.join(outdir, fn), t)
